@@ -22,7 +22,14 @@ two, so the float64 sums stay exact and the Q model is compared as before (Props
 C03_normalisation_homogeneous, C03_nc_sample_weight_invariant, C03_threshold_refuted).  (e) the real pipeline:
 small catalogs with weights of order one, 2^-40..2^-20 and 2^+20..2^+40, with and without rweight -> crosscorrelate /
 autocorrelate -> CorrFunc.sample() / RedshiftData.from_corrfuncs(): the samples against the model on the pair counts the
-measurement stored, and sample k against the measurement repeated on the catalogs without patch k (c03_rerun_case).
+measurement stored, and sample k against the measurement repeated on the catalogs without patch k (c03_rerun_case).  (f) derived containers: the container that is
+sampled was selected / combined first - .patches[...] with index lists in any order (unsorted, negative, numpy arrays,
+permutations, rotations), reversed and stepped slices, masks, applied once or twice; .bins[...] and iteration over bins
+before or after; + another container, sum([...]), * scalar; to_file / from_file, pickle, deepcopy - through PatchedCounts,
+PatchedSumWeights, NormalisedCounts, CorrFunc (generated and measured) and RedshiftData.from_corrfuncs.  The model gets the
+arrays AS CONSTRUCTED plus the list of operations (Model/Jackknife.v: deriv, derive): sample k must be the statistic of the
+original data restricted to the selected patches without the k-th selected one (Props/C03: C03_selection_loo,
+C03_selection_sample, C03_selection_nc_sample_is_recount, C03_selection_twice, C03_selection_mixed_order_refuted).
 """
 import math
 import os
@@ -46,6 +53,10 @@ TRUSTED = [
     "real-pipeline cases: the pair counts and sums of weights the measurement stored in the CorrFunc are taken as the data of "
     "the model; that these are the pair counts of the catalogs is C01 / C10's subject.  With rweight the stored counts are "
     "not dyadic: the float64 leave-one-out sums round, the comparison uses 2^-40 of the forward error scale instead of 2^-48",
+    "derived containers: an index expression (slice with any step, list, integer array, mask) is resolved to patch / bin "
+    "positions by numpy itself (np.arange(n)[item]) and handed to the model as a list of positions (what an index expression "
+    "selects is C17's subject); the addend of a sum is built by the harness with the sums of weights the caller's own "
+    "bookkeeping (numpy indexing of the constructor arguments) gives; files, pickle and deepcopy are modelled as the identity",
 ]
 ASSUMPTIONS = [
     "histogram rows are compared for max_workers=1 (row order under parallel completion is C05's subject)",
@@ -56,6 +67,10 @@ ASSUMPTIONS = [
     "magnitudes: all factors are powers of two between 2^-100 and 2^+100 (no float64 underflow / overflow in sums, products "
     "and covariances); sample k of a real measurement is compared with the measurement repeated without patch k only where "
     "both are numbers (a leave-one-out sum that is exactly 0 in one order of summation can be a rounding residual in another)",
+    "derived containers: selections keep >= 2 different patches and >= 1 bin, no patch is selected twice, bins are selected in "
+    "ascending order; an operation the implementation refuses is counted (derived_refused/*), not alarmed; samples that are the "
+    "leave-one-out statistics of the selected patches in ASCENDING order instead of the caller's order are reported as a broken "
+    "tie (c03_derived_patch_order), not as a failing input: which patch sits at position k of a selection is C17's subject",
 ]
 RULE = ("cases = one container (PatchedCounts | PatchedSumWeights | NormalisedCounts | CorrFunc with a subset of dr/rd/rr | "
         "triple of CorrFuncs for n(z) | catalog for a histogram) with its arrays; distinct by all array entries; "
@@ -63,7 +78,9 @@ RULE = ("cases = one container (PatchedCounts | PatchedSumWeights | NormalisedCo
         "mis-signed or incomplete leave-one-out sum changes the output); magnitude cases (kind label .../mag:<profile>) are the "
         "same kinds of case on power-of-two scaled arrays, pipeline cases (kind pipeline/...) are real measurements; the "
         "histograms loo-count-magnitude/* and sample-magnitude/* say which decades the smallest non-zero leave-one-out "
-        "pair-count sum and the samples reached")
+        "pair-count sum and the samples reached; derived cases (kind derived/<container>/<operations>/<kind of patch index>) are "
+        "a container as constructed plus the operations performed before sampling, distinct by arrays and operations; the "
+        "counters derived_selection_order:* say how many of them selected patches in a non-ascending order")
 
 KNOWN_HIST_SIG = "c03-hist-samples-reversed"
 
@@ -614,7 +631,31 @@ def traces(ctx):
 HEADER_X = jk.HEADER + (
     "Definition tolp : Q := 1 # 1099511627776.   (* 2^-40: stored pair counts that are not dyadic (rweight) *)\n"
     "Definition c03_corr_case_tol (tol : Q) (N : nat) (dd : pc) (dr rd rr : option pc) (samples : list (list oq)) : nat :=\n"
-    "  code [ res_mat_ok tol (corr_samples N dd dr rd rr) samples; res_mat_ok tol (corr_recount N dd dr rd rr) samples ].\n")
+    "  code [ res_mat_ok tol (corr_samples N dd dr rd rr) samples; res_mat_ok tol (corr_recount N dd dr rd rr) samples ].\n"
+    # ---- derived containers (Model/Jackknife.v: deriv, derive, sort_steps, with_alt) lifted to the record pc
+    "Definition pcd (ds : list deriv) (p : pc) : pc :=\n"
+    "  let '(C, U, V) := derive ds (pc_counts p, pc_w1 p, pc_w2 p) in {| pc_auto := pc_auto p; pc_counts := C; pc_w1 := U; pc_w2 := V |}.\n"
+    "Definition pc_np (p : pc) : nat := arrs_np (pc_counts p, pc_w1 p, pc_w2 p).\n"
+    "Definition dp := (list deriv * pc)%type.   (* what the caller did to a member, and the member as constructed *)\n"
+    "Definition dcf := (dp * option dp * option dp * option dp)%type.\n"
+    "Definition dp_get (sorted : bool) (x : dp) : pc := pcd (if sorted then sort_steps (fst x) else fst x) (snd x).\n"
+    "Definition dcf_eval (f : nat -> pc -> option pc -> option pc -> option pc -> list (list res)) (sorted : bool) (c : dcf) : list (list res) :=\n"
+    "  let '(dd, dr, rd, rr) := c in let g := dp_get sorted in let dd' := g dd in\n"
+    "  f (pc_np dd') dd' (option_map g dr) (option_map g rd) (option_map g rr).\n"
+    "Definition c03_dcorr_core (tol : Q) (sorted : bool) (c : dcf) (samples : list (list oq)) : nat :=\n"
+    "  code [ res_mat_ok tol (dcf_eval corr_samples sorted c) samples; res_mat_ok tol (dcf_eval corr_recount sorted c) samples ].\n"
+    "Definition c03_dcorr_case (tol : Q) (c : dcf) (samples : list (list oq)) : nat :=\n"
+    "  with_alt (c03_dcorr_core tol false c samples) (fun _ => c03_dcorr_core tol true c samples).\n"
+    "(* RedshiftData.from_corrfuncs of derived CorrFuncs: row k is the n(z) formula of the recount without the k-th patch held *)\n"
+    "Definition dnz_rows (dz : list Q) (cs : list (list res)) (rs us : option (list (list res))) (nz_s : list (list oq)) : bool :=\n"
+    "  Nat.eqb (length nz_s) (length cs)\n"
+    "  && forallb (fun k => meas_nz_row_ok dz (nth k cs []) (option_map (fun m => nth k m []) rs)\n"
+    "                                      (option_map (fun m => nth k m []) us) (nth k nz_s [])) (seq 0 (length cs)).\n"
+    "Definition c03_dnz_core (sorted : bool) (dz : list Q) (cross : dcf) (ref unk : option dcf) (nz_s : list (list oq)) : nat :=\n"
+    "  code [ dnz_rows dz (dcf_eval corr_recount sorted cross) (option_map (dcf_eval corr_recount sorted) ref)\n"
+    "                  (option_map (dcf_eval corr_recount sorted) unk) nz_s ].\n"
+    "Definition c03_dnz_case (dz : list Q) (cross : dcf) (ref unk : option dcf) (nz_s : list (list oq)) : nat :=\n"
+    "  with_alt (c03_dnz_core false dz cross ref unk nz_s) (fun _ => c03_dnz_core true dz cross ref unk nz_s).\n")
 
 
 class BatchX(jk.Batch):
@@ -903,7 +944,8 @@ def gen_pipeline(rng, mode=None, rweight="draw"):
                 out.append([ra, dec, rng.randrange(1, 9) / 2.0 * math.ldexp(1.0, e), k, rng.choice(PIPE_ZS) if with_z else None])
         return out
     randoms = rng.choice(["ref_rand", "unk_rand", "both", "both"])
-    return dict(npatch=npatch, cents=[list(c) for c in cents], randoms=randoms, rweight=rweight, edges=PIPE_EDGES,
+    ikind, item = gen_patch_item(rng, npatch, rng.choice(["list-unsorted", "reversed", "neg-step", "permutation", "rotation"]))
+    return dict(derived=[dict(op="patches", item=item)], derived_item=ikind, npatch=npatch, cents=[list(c) for c in cents], randoms=randoms, rweight=rweight, edges=PIPE_EDGES,
                 rmin=5.0, rmax=40.0, unit="arcmin",
                 cats=dict(ref=rows(8, exps["ref"], True), unk=rows(7, exps["unk"], False), rand=rows(12, exps["rand"], True),
                           rand2=rows(10, exps["rand2"], False)),
@@ -962,7 +1004,7 @@ def patches_as_generated(spec, cf):
     return cf.num_patches == N and np.array_equal(want, np.asarray(cf.dd.sum_weights.sum_weights1, dtype=float))
 
 
-def case_pipeline(ctx, b_corr, b_nz, b_cov, b_rerun, spec, tag, ks=None):
+def case_pipeline(ctx, b_corr, b_nz, b_cov, b_rerun, spec, tag, ks=None, b_der=None):
     import shutil
     profile = "%s/%s" % (spec["mag"]["profile"], "rweight" if spec["rweight"] is not None else "no-rweight")
     try:
@@ -975,6 +1017,10 @@ def case_pipeline(ctx, b_corr, b_nz, b_cov, b_rerun, spec, tag, ks=None):
         cds = {}
         for which, cf in res.items():
             cds[which] = case_corr(ctx, b_corr, b_cov, cf_spec(cf, spec), obj=cf, label="pipeline/%s/%s" % (which, profile))
+            if b_der is not None and spec.get("derived"):       # the measured CorrFunc, patches selected, then sampled
+                case_dcorr(ctx, b_der, None, dict(cf_spec(cf, spec), ops=spec["derived"], pattern="patches",
+                                                  item_kind=spec["derived_item"], pipeline=spec), obj=cf,
+                           label="derived/pipeline/%s/%s/%s" % (which, spec["derived_item"], profile))
         if cds["crosscorrelate"] is not None:
             for use_ref in (True, False):
                 ref = cds["autocorrelate"] if use_ref else None
@@ -1016,7 +1062,7 @@ def case_pipeline(ctx, b_corr, b_nz, b_cov, b_rerun, spec, tag, ks=None):
                 shutil.rmtree(os.path.join(ctx.workdir, d), ignore_errors=True)
 
 
-def magnitude_probe(ctx, b_raw, b_corr, b_nz, b_cov, b_hist, b_rerun):
+def magnitude_probe(ctx, b_raw, b_corr, b_nz, b_cov, b_hist, b_rerun, b_der=None):
     """deterministic members of the class (independent of VERIF_SEED): every profile once through every container, and
     real measurements with catalog weights of 2^-30 and with rweight"""
     import random
@@ -1035,7 +1081,443 @@ def magnitude_probe(ctx, b_raw, b_corr, b_nz, b_cov, b_hist, b_rerun):
     for n, region in enumerate(("tiny", "huge")):
         case_hist(ctx, b_hist, b_cov, gen_hist_mag(prng, 4, 3, region), "mag_probe_%d" % n)
     for n, (mode, rweight) in enumerate((("tiny", None), ("plain", 1.0), ("tiny", -0.5))):
-        case_pipeline(ctx, b_corr, b_nz, b_cov, b_rerun, gen_pipeline(prng, mode, rweight), "probe%d" % n)
+        case_pipeline(ctx, b_corr, b_nz, b_cov, b_rerun, gen_pipeline(prng, mode, rweight), "probe%d" % n, b_der=b_der)
+
+
+# ----------------------------------------------------------------------------- derived containers
+# Every case above samples a container exactly as it was constructed (or measured).  Callers select first: .patches[...]
+# with a list in any order, a reversed / stepped slice, a mask; .bins[...]; sums; scalar multiples; a file written and read
+# back - and sample afterwards.  The property then speaks about the container that is sampled: its k-th patch is the k-th
+# SELECTED one and sample k is the statistic of the original data restricted to the selection without its k-th entry
+# (Model/Jackknife.v: deriv / derive; Props/C03: C03_selection_loo, C03_selection_sample,
+# C03_selection_nc_sample_is_recount, C03_selection_twice, C03_selection_mixed_order_refuted).  The model receives the
+# arrays of the container AS CONSTRUCTED and the list of operations; it never sees what the derived container stores.
+PATCH_ITEMS = ("list-unsorted", "reversed", "neg-step", "step", "range", "list-sorted", "list-negative", "array-unsorted",
+               "mask", "rotation", "permutation")
+PATCH_ITEMS_DRAW = PATCH_ITEMS + ("list-unsorted", "list-unsorted", "reversed", "neg-step", "permutation", "rotation")
+BIN_ITEMS = ("int", "range", "step", "list", "mask", "all")
+D_PATTERNS = ("patches", "patches", "patches-twice", "bins+patches", "patches+bins", "add+patches", "patches+add", "mul+patches",
+              "patches+mul", "sum+patches", "copy+patches", "patches+copy", "iter-bins+patches", "no-selection")
+COPIES = dict(corr=("file", "file", "pickle", "deepcopy"), nc=("pickle", "deepcopy"), sps=("pickle", "deepcopy"),
+              weights=("pickle", "deepcopy"))
+
+
+class Refused(Exception):
+    """the implementation refused an operation of a derivation (not a violation of this property)"""
+
+
+def py_item(it):
+    tag = it[0]
+    if tag == "int":
+        return int(it[1])
+    if tag == "slice":
+        return slice(it[1], it[2], it[3])
+    if tag == "list":
+        return [int(i) for i in it[1]]
+    if tag == "array":
+        return np.array(it[1], dtype=np.int64)
+    if tag == "mask":
+        return np.array(it[1], dtype=bool)
+    raise KeyError(tag)
+
+
+def resolve(it, n):
+    """the positions an index expression selects on an axis of length n (numpy's own reading of it)"""
+    return [int(i) for i in np.atleast_1d(np.arange(n)[py_item(it)])]
+
+
+def gen_patch_item(rng, n, kind=None):
+    """-> (kind, item): an index expression on an axis of n >= 2 patches that keeps at least two different ones"""
+    kind = kind or rng.choice(PATCH_ITEMS_DRAW)
+    m = rng.randint(2, n)
+    ids = rng.sample(range(n), m)
+    if ids == sorted(ids):
+        ids.reverse()
+    it = None
+    if kind in ("list-unsorted", "array-unsorted"):
+        it = ["list" if kind == "list-unsorted" else "array", ids]
+    elif kind == "list-sorted":
+        it = ["list", sorted(ids)]
+    elif kind == "list-negative":
+        it = ["list", [i - n if (j == 0 or rng.random() < 0.5) else i for j, i in enumerate(ids)]]
+    elif kind == "reversed":
+        it = ["slice", None, None, -1]
+    elif kind == "neg-step":
+        it = ["slice", rng.choice([None, n - 1, -1, n - 2 if n > 3 else None]), rng.choice([None, None, 0 if n > 3 else None]),
+              -2 if n > 4 and rng.random() < 0.5 else -1]
+    elif kind == "step":
+        it = ["slice", rng.choice([None, 0, 1 if n > 3 else 0]), None, 2]
+    elif kind == "range":
+        a = rng.randrange(0, n - 1)
+        it = ["slice", a, rng.randint(a + 2, n), None]
+    elif kind == "mask":
+        it = ["mask", [i in ids for i in range(n)]]
+    elif kind == "rotation":
+        s = rng.randrange(1, n)
+        it = ["list", list(range(s, n)) + list(range(s))]
+    elif kind == "permutation":
+        perm = list(range(n))
+        while perm == sorted(perm):
+            rng.shuffle(perm)
+        it = ["list", perm]
+    sel = resolve(it, n) if it is not None else []
+    if len(sel) < 2 or len(set(sel)) != len(sel):
+        it = ["slice", None, None, -1]
+    return kind, it
+
+
+def gen_bin_item(rng, B, kind=None):
+    """a non-empty selection of bins in ascending order (a Binning has increasing edges)"""
+    kind = kind or rng.choice(BIN_ITEMS)
+    if kind == "int" or B == 1:
+        return ["int", rng.choice([rng.randrange(B), -1])]
+    if kind == "range":
+        a = rng.randrange(0, B)
+        return ["slice", a, rng.randint(a + 1, B), None]
+    if kind == "step":
+        return ["slice", rng.choice([None, 0, 1]) if B > 2 else None, None, 2]
+    if kind == "list":
+        return ["list", sorted(rng.sample(range(B), rng.randint(1, B)))]
+    if kind == "mask":
+        keep = rng.sample(range(B), rng.randint(1, B))
+        return ["mask", [b in keep for b in range(B)]]
+    return ["slice", None, None, None]
+
+
+def gen_ops(rng, what, B, N, auto, names, pattern=None, item_kind=None):
+    """a list of operations a caller performs between construction and sampling; names: the members that need an addend
+    (['pc'] for a raw container, the kinds of a CorrFunc).  Keeps >= 2 patches and >= 1 bin."""
+    pattern = pattern or rng.choice(D_PATTERNS)
+    if what == "weights" and pattern in ("add+patches", "patches+add", "mul+patches", "patches+mul", "sum+patches"):
+        pattern = "patches-twice"            # sums of weights have no arithmetic
+    shape = [B, N]
+    kinds_used = []
+
+    def patches():
+        k, it = gen_patch_item(rng, shape[1], item_kind if not kinds_used else None)
+        kinds_used.append(k)
+        shape[1] = len(resolve(it, shape[1]))
+        return dict(op="patches", item=it)
+
+    def bins():
+        it = gen_bin_item(rng, shape[0])
+        shape[0] = len(resolve(it, shape[0]))
+        return dict(op="bins", item=it)
+
+    def iter_bins():
+        b = rng.randrange(shape[0])
+        shape[0] = 1
+        return dict(op="iter_bins", b=b)
+
+    def add(how):
+        return dict(op="add", how=how, other={k: jk.tolist(jk.gen_counts(rng, shape[0], shape[1], "dense", auto)) for k in names})
+
+    def mul():
+        return dict(op="mul", c=rng.choice([2.0, 0.5, 3, 0.25, 8.0]))
+
+    def copy():
+        return dict(op="copy", how=rng.choice(COPIES[what]))
+    steps = {"patches": [patches], "patches-twice": [patches, patches], "bins+patches": [bins, patches],
+             "patches+bins": [patches, bins], "add+patches": [lambda: add("+"), patches], "patches+add": [patches, lambda: add("+")],
+             "mul+patches": [mul, patches], "patches+mul": [patches, mul], "sum+patches": [lambda: add("sum"), patches],
+             "copy+patches": [copy, patches], "patches+copy": [patches, copy], "iter-bins+patches": [iter_bins, patches],
+             "no-selection": [rng.choice([mul, copy, bins, lambda: add("+")]) if what != "weights" else rng.choice([copy, bins]),
+                              rng.choice([mul, copy]) if what != "weights" else copy]}[pattern]
+    ops = [f() for f in steps]
+    return ops, pattern, (kinds_used[0] if kinds_used else "none")
+
+
+def d_step(kind, arg):
+    if kind == "patches":
+        return "(D_patches %s)" % fq.nlist(arg)
+    if kind == "bins":
+        return "(D_bins %s)" % fq.nlist(arg)
+    if kind == "add":
+        return "(D_add %s)" % jk.qmat3(arg)
+    return "(D_mul %s)" % fq.q(arg)
+
+
+def derive_real(ctx, what, edges, members, ops, obj=None):
+    """perform `ops` on the real container built from `members` ({'pc': plain pc} for what in sps / weights / nc, the kinds
+    of a CorrFunc for 'corr'; obj: a CorrFunc of a real measurement that stores these arrays).
+    -> (derived object, {member: Coq list of deriv}, some patch selection was not ascending)"""
+    import copy as _copy
+    import pickle as _pickle
+    if what == "corr":
+        names = [k for k in jk.ALLK if members[k] is not None]
+        obj = obj if obj is not None else jk.build_corrfunc(edges, members)
+    else:
+        names = ["pc"]
+        obj = dict(sps=jk.build_counts, weights=jk.build_weights, nc=jk.build_nc)[what](edges, members["pc"])
+    auto = bool(members[names[0]]["auto"])
+    # the caller's own bookkeeping of the sums of weights (an addend must come with the same ones)
+    w = {k: (np.array(members[k]["w1"], dtype=float), np.array(members[k]["w2"], dtype=float)) for k in names}
+    B, N = w[names[0]][0].shape
+    steps = {k: [] for k in names}
+    unsorted = False
+
+    def addend(k, counts):
+        pc = jk.PatchedCounts(obj.binning, np.array(counts, dtype=float), auto=auto)
+        if what == "sps":
+            return pc
+        return jk.NormalisedCounts(pc, jk.PatchedSumWeights(obj.binning, w[k][0].copy(), w[k][1].copy(), auto=auto))
+    for n, op in enumerate(ops):
+        name = op["op"]
+        try:
+            if name == "patches":
+                sel = resolve(op["item"], N)
+                obj = obj.patches[py_item(op["item"])]
+                w = {k: (a[:, sel], b[:, sel]) for k, (a, b) in w.items()}
+                N = len(sel)
+                unsorted = unsorted or sel != sorted(sel)
+                for k in names:
+                    steps[k].append(d_step("patches", sel))
+            elif name in ("bins", "iter_bins"):
+                if name == "bins":
+                    sel = resolve(op["item"], B)
+                    obj = obj.bins[py_item(op["item"])]
+                else:
+                    sel = [int(op["b"])]
+                    obj = list(obj.bins)[sel[0]]
+                w = {k: (a[sel], b[sel]) for k, (a, b) in w.items()}
+                B = len(sel)
+                for k in names:
+                    steps[k].append(d_step("bins", sel))
+            elif name == "add":
+                if what == "corr":
+                    other = jk.CorrFunc(**{k: addend(k, op["other"][k]) for k in names})
+                else:
+                    other = addend("pc", op["other"]["pc"])
+                obj = sum([obj, other]) if op["how"] == "sum" else obj + other
+                for k in names:
+                    steps[k].append(d_step("add", op["other"][k]))
+            elif name == "mul":
+                obj = obj * op["c"]
+                for k in names:
+                    steps[k].append(d_step("mul", op["c"]))
+            elif name == "copy":
+                if op["how"] == "file":
+                    path = os.path.join(ctx.workdir, "derived_%d.hdf" % os.getpid())
+                    try:
+                        obj.to_file(path)
+                        obj = jk.CorrFunc.from_file(path)
+                    finally:
+                        if os.path.exists(path):
+                            os.remove(path)
+                elif op["how"] == "pickle":
+                    obj = _pickle.loads(_pickle.dumps(obj))
+                else:
+                    obj = _copy.deepcopy(obj)
+            else:
+                raise KeyError(name)
+        except KeyError:
+            raise
+        except Exception as e:  # noqa: BLE001
+            raise Refused("operation %d (%s) refused: %s: %s" % (n, name, type(e).__name__, str(e)[:160]))
+    return obj, {k: "[" + "; ".join(v) + "]" for k, v in steps.items()}, unsorted
+
+
+def h_derived(ctx, name, spec_bits, sig, text):
+    """codes of the c03_d*_case checkers: bit 6 = the samples are those of the derivation with every patch selection in
+    ascending order (the container holds other patches at position k than the caller selected - consistently; which
+    patch sits where in a selection is C17's subject: a broken tie); spec_bits = the property is false on this input"""
+    def h(c, case, replay):
+        if c & 64:
+            ctx.disagree("c03_derived_patch_order", case, dict(code=c, replay=replay, detail="the samples are the leave-one-out "
+                         "statistics of the selected patches taken in ascending order, not in the order the caller selected them"))
+            return
+        if c & spec_bits:
+            ctx.fail(sig, text + " (code %d)" % c, replay, case=case)
+        if c & ~spec_bits & 63:
+            ctx.disagree(name, case, dict(code=c, replay=replay))
+    return h
+
+
+def d_label(what, pattern, item_kind, spec):
+    return "derived/%s/%s/%s%s" % (what, pattern, item_kind, mag_suffix(spec))
+
+
+def d_prepare(ctx, what, spec, members, obj=None):
+    """-> (derived object, steps) or None when the implementation refused the derivation"""
+    try:
+        der, steps, unsorted = jk.quiet(derive_real, ctx, what, spec["edges"], members, spec["ops"], obj)
+    except Refused as e:
+        ctx.bump("derived_refused/%s" % what)
+        ctx.log("derivation refused (%s): %s" % (what, e))
+        return None
+    ctx.bump("derived_cases/%s" % what)
+    ctx.bump("derived_selection_order:%s" % ("not-ascending" if unsorted else "ascending"))
+    return der, steps
+
+
+def case_dsps(ctx, batch, spec):
+    p = spec["pc"]
+    got = d_prepare(ctx, "sps", spec, dict(pc=p))
+    if got is None:
+        return
+    der, steps = got
+    sd = der.sample_patch_sum()
+    term = "c03_dsps_case %s %s %s %s" % (steps["pc"], jk.qmat3(p["counts"]), fq.qlist(sd.data), fq.qmat(sd.samples))
+    batch.add(term, h_derived(ctx, "c03_dsps_case", 2, "c03-derived-sps-sample-not-loo",
+                              "PatchedCounts after %s: sample k of sample_patch_sum() is not the sum over the patches the container "
+                              "holds without its k-th one" % spec["pattern"]), dict(kind="d-sps", spec=spec))
+    ctx.count(key=("d-sps", repr(spec)), nontrivial=varies(sd.samples), kind=d_label("sps", spec["pattern"], spec["item_kind"], spec))
+
+
+def case_dweights(ctx, batch, spec):
+    p = spec["pc"]
+    got = d_prepare(ctx, "weights", spec, dict(pc=p))
+    if got is None:
+        return
+    der, steps = got
+    arr, sd = der.get_array(), der.sample_patch_sum()
+    term = "c03_dweights_case %s %s %s %s %s %s %s" % (steps["pc"], fq.b(p["auto"]), fq.qmat(p["w1"]), fq.qmat(p["w2"]), jk.qmat3(arr),
+                                                       fq.qlist(sd.data), fq.qmat(sd.samples))
+    batch.add(term, h_derived(ctx, "c03_dweights_case", 2 | 4, "c03-derived-weights-sample-not-loo",
+                              "PatchedSumWeights after %s: sample k of sample_patch_sum() is not the normalisation of the patches the "
+                              "container holds without its k-th one" % spec["pattern"]), dict(kind="d-weights", spec=spec))
+    ctx.count(key=("d-weights", repr(spec)), nontrivial=varies(sd.samples),
+              kind=d_label("weights", spec["pattern"], spec["item_kind"], spec))
+
+
+def case_dnc(ctx, batch, spec):
+    p = spec["pc"]
+    got = d_prepare(ctx, "nc", spec, dict(pc=p))
+    if got is None:
+        return
+    der, steps = got
+    sd = jk.quiet(der.sample_patch_sum)
+    term = "c03_dnc_case %s %s %s %s %s %s %s" % (steps["pc"], fq.b(p["auto"]), jk.qmat3(p["counts"]), fq.qmat(p["w1"]), fq.qmat(p["w2"]),
+                                                  jk.oqlist(sd.data), jk.oqmat(sd.samples))
+    batch.add(term, h_derived(ctx, "c03_dnc_case", 2, "c03-derived-nc-sample-not-recount",
+                              "NormalisedCounts after %s: sample k of sample_patch_sum() is not the normalised count of the patches the "
+                              "container holds without its k-th one (pair counts and sums of weights of the SAME patches)"
+                              % spec["pattern"]), dict(kind="d-nc", spec=spec))
+    ctx.count(key=("d-nc", repr(spec)), nontrivial=varies(sd.samples), kind=d_label("nc", spec["pattern"], spec["item_kind"], spec))
+
+
+def dcf_term(kinds, steps):
+    def one(k):
+        return "(%s, %s)" % (steps[k], jk.pc_term(kinds[k]))
+    return "(%s, %s, %s, %s)" % ((one("dd"),) + tuple("None" if kinds[k] is None else "(Some %s)" % one(k) for k in jk.KINDS))
+
+
+def case_dcorr(ctx, batch, cov_batch, spec, obj=None, label=None):
+    """CorrFunc.sample() of the CorrFunc built from spec['kinds'] (or of obj, a measured one that stores them) after spec['ops']"""
+    got = d_prepare(ctx, "corr", spec, spec["kinds"], obj)
+    if got is None:
+        return None
+    der, steps = got
+    try:
+        cd = jk.quiet(der.sample)
+    except Exception as e:  # noqa: BLE001
+        ctx.count(key=("d-corr-raised", repr(spec)), kind="derived/corr/raised")
+        ctx.fail("c03-raises:%s" % type(e).__name__, "CorrFunc.sample() raised %s: %s after %s" % (type(e).__name__, e, spec["pattern"]),
+                 dict(kind="d-corr", spec=spec))
+        return None
+    term = "c03_dcorr_case %s %s %s" % ("tolp" if spec.get("rounded") else "tol48", dcf_term(spec["kinds"], steps), jk.oqmat(cd.samples))
+    batch.add(term, h_derived(ctx, "c03_dcorr_case", 2, "c03-derived-corr-sample-not-recount",
+                              "CorrFunc after %s: sample k of sample() is not the estimator of the pair counts of the patches the "
+                              "container holds without its k-th one" % spec["pattern"]),
+              dict(kind="d-corr", spec=spec) if obj is None else dict(kind="pipeline", spec=spec["pipeline"]))
+    ctx.count(key=("d-corr", repr(spec["kinds"]), repr(spec["ops"])), nontrivial=varies(cd.samples),
+              kind=label or d_label("corr/%s" % ("auto" if spec["kinds"]["dd"]["auto"] else "cross"), spec["pattern"], spec["item_kind"], spec))
+    ctx.sample(dict(kind="d-corr", ops=[dict(o, other="...") if "other" in o else o for o in spec["ops"]],
+                    samples=np.asarray(cd.samples).tolist()), limit=2)
+    if cov_batch is not None:
+        add_cov(ctx, cov_batch, cd, jk.probes_for(ctx.rng, np.asarray(cd.samples).shape[1]), dict(kind="d-corr", spec=spec),
+                ("cov-d-corr", repr(spec)), "covariance/derived-corr")
+    return cd
+
+
+def case_dnz(ctx, batch, cov_batch, spec):
+    """RedshiftData.from_corrfuncs of CorrFuncs that went through the same operations"""
+    cfs, terms = {}, {}
+    for which in ("cross", "ref", "unk"):
+        sub = spec[which]
+        if sub is None:
+            cfs[which], terms[which] = None, "None"
+            continue
+        got = d_prepare(ctx, "corr", dict(edges=sub["edges"], ops=spec["ops"]), sub["kinds"])
+        if got is None:
+            return
+        cfs[which] = got[0]
+        terms[which] = dcf_term(sub["kinds"], got[1]) if which == "cross" else "(Some %s)" % dcf_term(sub["kinds"], got[1])
+    try:
+        nz = jk.quiet(jk.RedshiftData.from_corrfuncs, cfs["cross"], cfs["ref"], cfs["unk"])
+    except Exception as e:  # noqa: BLE001
+        ctx.count(key=("d-nz-raised", repr(spec)), kind="derived/nz/raised")
+        ctx.fail("c03-raises:%s" % type(e).__name__, "RedshiftData.from_corrfuncs raised %s: %s after %s" % (type(e).__name__, e, spec["pattern"]),
+                 dict(kind="d-nz", spec=spec))
+        return
+    dz = list(cfs["cross"].binning.dz)
+    term = "c03_dnz_case %s %s %s %s %s" % (fq.qlist(dz), terms["cross"], terms["ref"], terms["unk"], jk.oqmat(nz.samples))
+    batch.add(term, h_derived(ctx, "c03_dnz_case", 1, "c03-derived-nz-sample-not-recount",
+                              "RedshiftData.from_corrfuncs of CorrFuncs after %s: sample k is not the n(z) formula of the correlation "
+                              "functions recomputed from the patches they hold without the k-th one" % spec["pattern"]),
+              dict(kind="d-nz", spec=spec))
+    ctx.count(key=("d-nz", repr(spec)), nontrivial=varies(nz.samples),
+              kind=d_label("nz/%s%s" % ("ref" if cfs["ref"] is not None else "", "+unk" if cfs["unk"] is not None else ""),
+                           spec["pattern"], spec["item_kind"], spec))
+    add_cov(ctx, cov_batch, nz, jk.probes_for(ctx.rng, len(dz)), dict(kind="d-nz", spec=spec), ("cov-d-nz", repr(spec)),
+            "covariance/derived-nz")
+
+
+def gen_dsingle(rng, what, small=False, pattern=None, item_kind=None, shape=None, auto=None, mag=False):
+    spec = gen_single_mag(rng, what, small) if mag else gen_single(rng, what, small)
+    if shape is not None or auto is not None:
+        B, N = shape or (len(spec["edges"]) - 1, spec["N"])
+        a = spec["pc"]["auto"] if auto is None else auto
+        spec = dict(edges=jk.gen_binning(rng, B), N=N, mode="dense", pc=jk.pc_plain(jk.gen_pc(rng, B, N, a, "dense")))
+    B, N = len(spec["edges"]) - 1, spec["N"]
+    spec["ops"], spec["pattern"], spec["item_kind"] = gen_ops(rng, what, B, N, spec["pc"]["auto"], ["pc"], pattern, item_kind)
+    return spec
+
+
+def gen_dcorr(rng, small=False, pattern=None, item_kind=None, shape=None, auto=None, mag=False):
+    if mag:
+        spec = gen_corr_mag(rng, small, shape=shape, auto=auto)
+    elif shape is not None or auto is not None:
+        B, N = shape or jk.pick_shape(rng, small)
+        a = (rng.random() < 0.5) if auto is None else auto
+        defined = [s for s in jk.SUBSETS if "dr" in s or ("rr" not in s)]
+        spec = jk.corr_plain(jk.gen_binning(rng, B), N, jk.gen_corrfunc(rng, B, N, a, rng.choice(["dense", "dense", "dyadic"]), rng.choice(defined)))
+    else:
+        spec = gen_corr(rng, small)
+    B, N = len(spec["edges"]) - 1, spec["N"]
+    names = [k for k in jk.ALLK if spec["kinds"][k] is not None]
+    spec["ops"], spec["pattern"], spec["item_kind"] = gen_ops(rng, "corr", B, N, spec["kinds"]["dd"]["auto"], names, pattern, item_kind)
+    return spec
+
+
+NZ_PATTERNS = ("patches", "patches", "patches-twice", "bins+patches", "patches+bins", "mul+patches", "copy+patches", "patches+copy")
+
+
+def gen_dnz(rng, small=False, pattern=None, item_kind=None):
+    """the three CorrFuncs of an n(z) estimate, all taken through the same operations (no addends)"""
+    spec = jk.gen_nz_spec(rng, small)
+    B, N = len(spec["cross"]["edges"]) - 1, spec["cross"]["N"]
+    spec["ops"], spec["pattern"], spec["item_kind"] = gen_ops(rng, "corr", B, N, False, [], pattern or rng.choice(NZ_PATTERNS), item_kind)
+    return spec
+
+
+def derived_probe(ctx, b_raw, b_der, b_cov):
+    """deterministic members of the class (independent of VERIF_SEED): every kind of patch index once through
+    NormalisedCounts and once through CorrFunc (auto and cross alternating), every pattern of operations once through
+    CorrFunc, selections through the raw containers and through RedshiftData.from_corrfuncs"""
+    import random
+    prng = random.Random(80808)
+    for n, kind in enumerate(PATCH_ITEMS):
+        case_dnc(ctx, b_raw, gen_dsingle(prng, "nc", pattern="patches", item_kind=kind, shape=(2, 7 - n % 3), auto=bool(n % 2)))
+        case_dcorr(ctx, b_der, b_cov, gen_dcorr(prng, pattern="patches", item_kind=kind, shape=(2, 5 + n % 3), auto=not n % 2))
+    for n, pattern in enumerate(dict.fromkeys(D_PATTERNS)):
+        case_dcorr(ctx, b_der, None, gen_dcorr(prng, pattern=pattern, item_kind=("list-unsorted", "reversed", "neg-step")[n % 3],
+                                               shape=(3, 5), auto=bool(n % 2)))
+    for kind in ("list-unsorted", "reversed", "neg-step", "permutation"):
+        case_dsps(ctx, b_raw, gen_dsingle(prng, "sps", pattern="patches", item_kind=kind, shape=(2, 5)))
+        case_dweights(ctx, b_raw, gen_dsingle(prng, "weights", pattern="patches", item_kind=kind, shape=(2, 5)))
+    for kind, pattern in (("list-unsorted", "patches"), ("reversed", "bins+patches"), ("rotation", "patches-twice")):
+        case_dnz(ctx, b_der, b_cov, gen_dnz(prng, pattern=pattern, item_kind=kind))
 
 
 # ----------------------------------------------------------------------------- entry points
@@ -1049,10 +1531,12 @@ def run(ctx):
     b_nz = jk.Batch(ctx, "Cases_C03_nz", shard=40)
     b_hist = jk.Batch(ctx, "Cases_C03_hist", shard=80)
     b_rerun = BatchX(ctx, "Cases_C03_rerun", shard=80)
+    b_der = BatchX(ctx, "Cases_C03_derived", shard=16)
     f10b_probe(ctx, b_hist, b_cov)
     large_n_probe(ctx)
     undefined_probe(ctx, b_corr, b_nz, b_cov)
-    magnitude_probe(ctx, b_raw, b_corr, b_nz, b_cov, b_hist, b_rerun)
+    magnitude_probe(ctx, b_raw, b_corr, b_nz, b_cov, b_hist, b_rerun, b_der)
+    derived_probe(ctx, b_raw, b_der, b_cov)
     small = not ctx.quick()          # thorough: many cases, mostly small shapes
 
     def few():
@@ -1100,10 +1584,26 @@ def run(ctx):
     for i in range(ctx.n(7, 40)):
         spec = gen_pipeline(rng)
         case_pipeline(ctx, b_corr, b_nz, b_cov, b_rerun, spec, "p%d" % i,
-                      ks=None if ctx.quick() else list(range(spec["npatch"])))
+                      ks=None if ctx.quick() else list(range(spec["npatch"])), b_der=b_der)
+    # ---- derived containers: selected / added / multiplied / re-read before sampling
+    mag_patterns = ("patches", "patches-twice", "bins+patches", "patches+mul", "mul+patches", "copy+patches")
+    for _ in range(ctx.n(10, 200)):
+        case_dsps(ctx, b_raw, gen_dsingle(rng, "sps", few()))
+    for _ in range(ctx.n(8, 150)):
+        case_dweights(ctx, b_raw, gen_dsingle(rng, "weights", few()))
+    for _ in range(ctx.n(14, 300)):
+        case_dnc(ctx, b_raw, gen_dsingle(rng, "nc", few()))
+    for _ in range(ctx.n(22, 500)):
+        case_dcorr(ctx, b_der, b_cov, gen_dcorr(rng, few()))
+    for _ in range(ctx.n(6, 120)):
+        case_dnc(ctx, b_raw, gen_dsingle(rng, "nc", few(), pattern=rng.choice(mag_patterns), mag=True))
+    for _ in range(ctx.n(6, 120)):
+        case_dcorr(ctx, b_der, None, gen_dcorr(rng, few() or ctx.quick(), pattern=rng.choice(mag_patterns), mag=True))
+    for _ in range(ctx.n(8, 150)):
+        case_dnz(ctx, b_der, b_cov, gen_dnz(rng, ctx.quick() or few()))
     if not ctx.quick():
         exhaustive_binary(ctx, b_raw)
-    batches = (b_hist, b_raw, b_corr, b_nz, b_cov, b_rerun)
+    batches = (b_hist, b_raw, b_corr, b_der, b_nz, b_cov, b_rerun)
     ctx.log("implementation runs done; evaluating %d cases in Coq" % sum(len(b.items) for b in batches))
     for b in batches:
         b.run()
@@ -1127,7 +1627,17 @@ def replay(ctx, body):
     elif kind in ("nz-direct", "nz-direct-cov"):
         case_nz_direct(ctx, b, bc, spec)
     elif kind == "pipeline":
-        case_pipeline(ctx, b, b, bc, b, spec, "replay", ks=[r["k"]] if "k" in r else list(range(spec["npatch"])))
+        case_pipeline(ctx, b, b, bc, b, spec, "replay", ks=[r["k"]] if "k" in r else list(range(spec["npatch"])), b_der=b)
+    elif kind == "d-sps":
+        case_dsps(ctx, b, spec)
+    elif kind == "d-weights":
+        case_dweights(ctx, b, spec)
+    elif kind == "d-nc":
+        case_dnc(ctx, b, spec)
+    elif kind == "d-corr":
+        case_dcorr(ctx, b, bc, spec)
+    elif kind == "d-nz":
+        case_dnz(ctx, b, bc, spec)
     elif kind == "direct":
         case_direct(ctx, bc, spec)
     elif kind in ("hist", "hist-cov"):
